@@ -55,7 +55,7 @@ def gen_string(r):
     return r.choice(["/%s.?%s/", "/%s[a-z]*%s/", "/(%s|zz)%s/"]) % (a, b), w
 
 
-NSNAMES = ["default", "nsb", "nsc"]
+NSNAMES = ["default", "nsb", "nsc", "nsg"]
 
 
 def gen_company(r, gid):
@@ -94,6 +94,28 @@ def gen_company(r, gid):
         name = ("w%d" if (ns in wild_used and "(r*)" not in base) or (ns in wild_used and any("(r*)" in rules[d]["text"] for d in earlier)) else "r%d") % k
         text = "%srule %s { strings: %s condition: %s }" % (private, name, " ".join(strs), base)
         rules.append(dict(idx=i, ns=ns, name=name, text=text, deps=deps))
+    # a namespace of its own holding a GLOBAL rule (its strings present in some buffers, absent in others — then the rule is
+    # skipped without being evaluated) and an ordinary rule that depends on it: global rules only constrain their OWN namespace,
+    # so every rule of the other namespaces must be unaffected by this company; inserted at a random position of the set
+    if r.random() < 0.6:
+        gns = 3
+        pos = r.randint(0, len(rules))
+        zw = r.choice(planted + [b"zq9absent", b"never__here"])
+        gtxt = 'global rule g0 { strings: $z = "%s" condition: %s }' % ("".join("\\x%02x" % c for c in zw), r.choice(["$z", "#z > 1", "$z at 0"]))
+        extra = [dict(idx=None, ns=gns, name="g0", text=gtxt, deps=[])]
+        if r.random() < 0.6:
+            # after the global rule: a prefix of the set that contains o0 then contains the rule that constrains it
+            extra.append(dict(idx=None, ns=gns, name="o0", text="rule o0 { condition: filesize >= 0 }", deps=["g0"]))
+        rules[pos:pos] = extra
+        byname = {}
+        for i, x in enumerate(rules):                      # re-index; deps of the older rules are indices into the old list
+            x["_old"] = x["idx"]
+            x["idx"] = i
+        remap = {x["_old"]: x["idx"] for x in rules if x["_old"] is not None}
+        gidx = next(x["idx"] for x in rules if x["name"] == "g0" and x["ns"] == gns)
+        for x in rules:
+            x["deps"] = [gidx if d == "g0" else remap[d] for d in x["deps"]]
+            del x["_old"]
     bufs = []
     for _ in range(3):
         b = bytearray()
